@@ -230,7 +230,7 @@ def offsetAtFrom (cur : Int) : List (Int × Int) → Int → Int
 
 /-- jiff 0.2.5 looks an instant up by `Timestamp::as_second()`, which truncates toward zero: an instant with a
     non-zero fraction inside the last second before a transition *before 1970* already gets the offset after the
-    transition (finding F18, upstream).  Transitions are at whole seconds, so for every other instant this is the
+    transition (finding F22, upstream).  Transitions are at whole seconds, so for every other instant this is the
     plain lookup. -/
 def lookupNs (ns : Int) : Int := Int.tdiv ns 1000000000 * 1000000000
 
